@@ -7,36 +7,45 @@ import (
 	"strings"
 )
 
-// selfTest validates the oracle before it is used: the case syntax round
-// trips, a correct copy made by the reference copier is accepted on a
-// complete small space, and every planted flaw is reported under the
-// fingerprint it belongs to.
-func selfTest(rn *runner) error {
-	for n := 1; n <= 3; n++ {
-		for _, o := range rich.kinds(n) {
-			g := make(Graph, n)
-			for j := range g {
-				g[j] = Obj{K: 'i'}
-			}
-			g[n-1] = o
-			g2, err := ParseGraph(g.String())
-			if err != nil || g2.String() != g.String() {
-				return fmt.Errorf("graph syntax does not round trip: %q: %v", g.String(), err)
-			}
-		}
-	}
+// The self-test validates the oracle before it is used. It has two parts.
+//
+// selfTestOracle involves no code of the library under test: the case syntax
+// round trips; correct copies made by the reference copier into a memTarget (a
+// table of objects, streams as dictionary + decoded bytes) are accepted on
+// complete small spaces; every planted flaw is reported under the fingerprint
+// it belongs to. A failure here means the oracle is wrong: exit 2, whatever
+// the exploration would say.
+//
+// selfTestFiles sends the same correct copies through the library's Writer
+// and Reader (all file-level configurations), to make sure that the oracle
+// does not object to anything a correct file round trip does to a value
+// (/Length, inlined filters, encryption). This part depends on the Writer,
+// the Reader and the security handlers being right; a defect there is not a
+// defect of the oracle. Its failure is therefore kept as a suspicion: the
+// exploration runs anyway, and only if it finds no violation is the run
+// reported as an infrastructure failure.
 
-	// (1) a correct copier is accepted
+// selfTestSpaces are the complete spaces on which correct copies are made.
+func selfTestSpaces() []space {
+	return []space{
+		{alpha: rich, n: 1, depth: 2, dangOp: true, staleOp: true, cfgs: [][2]string{{"none", "1.4"}, {"rc4-128", "1.7-aes128"}, {"none", tgtRC4}}},
+		{alpha: leanStale, n: 2, depth: 2, dangOp: true, staleOp: true, cfgs: plainPair},
+		{alpha: midStale, n: 2, depth: 1, cfgs: plainPair},
+		{alpha: leanStale, n: 3, depth: 1, rooted: true, cfgs: plainPair},
+	}
+}
+
+// correctCopies runs the reference copier on the self-test spaces and hands
+// every copy to the oracle.
+func correctCopies(rn *runner, inMemory bool) (int, error) {
 	accepted := 0
 	for _, fl := range []flaw{flawNone, flawDirectNullOK} {
-		for i, sp := range []space{
-			{alpha: rich, n: 1, depth: 2, dangOp: true, cfgs: [][2]string{{"none", "1.4"}, {"rc4-128", "1.7-aes128"}}},
-			{alpha: lean, n: 2, depth: 2, dangOp: true, cfgs: plainPair},
-			{alpha: mid, n: 2, depth: 1, cfgs: plainPair},
-			{alpha: lean, n: 3, depth: 1, rooted: true, cfgs: plainPair},
-		} {
+		for i, sp := range selfTestSpaces() {
 			if fl != flawNone && i > 1 {
 				continue
+			}
+			if inMemory {
+				sp.cfgs = sp.cfgs[:1] // the configuration only labels fingerprints
 			}
 			ops := opsFor(sp)
 			var progs [][]Op
@@ -52,20 +61,16 @@ func selfTest(rn *runner) error {
 			var mu = &rn.mu
 			cnt := rn.enumerate(sp, func(g Graph) {
 				for _, cfg := range sp.cfgs {
-					s, err := buildSource(g, cfg[0])
-					if err != nil {
-						mu.Lock()
-						firstErr = err
-						mu.Unlock()
-						return
-					}
+					s := describeSource(g, cfg[0])
 					for _, prog := range progs {
-						ex, err := modelExecute(s, prog, cfg[1], fl)
+						ex, err := modelExecute(s, prog, cfg[1], fl, inMemory)
 						if err == nil {
 							fs, _ := judge(s, prog, cfg[1], ex)
 							if len(fs.list) > 0 {
 								err = fmt.Errorf("the oracle rejects a correct copy: graph {%s} program {%s} %s>%s: [%s] %s", g, progString(prog), cfg[0], cfg[1], fs.list[0].fp, fs.list[0].what)
 							}
+						} else {
+							err = fmt.Errorf("the reference copy of graph {%s} program {%s} cannot be written to a %s target: %w", g, progString(prog), cfg[1], err)
 						}
 						if err != nil {
 							mu.Lock()
@@ -79,41 +84,92 @@ func selfTest(rn *runner) error {
 				}
 			})
 			if firstErr != nil {
-				return firstErr
+				return accepted, firstErr
 			}
 			accepted += int(cnt) * len(progs) * len(sp.cfgs)
 		}
 	}
-	rn.r.Dim("selftest_correct_copies_accepted", accepted)
+	return accepted, nil
+}
+
+// selfTestOracle is the part that does not depend on the library.
+func selfTestOracle(rn *runner) error {
+	for n := 1; n <= 3; n++ {
+		for _, o := range rich.kinds(n) {
+			g := make(Graph, n)
+			for j := range g {
+				g[j] = Obj{K: 'i'}
+			}
+			g[n-1] = o
+			g2, err := ParseGraph(g.String())
+			if err != nil || g2.String() != g.String() {
+				return fmt.Errorf("graph syntax does not round trip: %q: %v", g.String(), err)
+			}
+		}
+	}
+	for _, p := range []string{"R0 C1 D2 Rx G0 G2", ""} {
+		prog, err := parseProg(p, 3)
+		if err != nil || progString(prog) != p {
+			return fmt.Errorf("program syntax does not round trip: %q: %v", p, err)
+		}
+	}
+
+	// (1) a correct copier is accepted
+	accepted, err := correctCopies(rn, true)
+	if err != nil {
+		return err
+	}
+	rn.r.Dim("selftest_correct_copies_accepted_described_as_data", accepted)
 
 	// (2) planted flaws are found
 	type plant struct {
-		fl       flaw
-		graph    string
-		prog     string
-		src, tgt string
-		want     string
+		fl    flaw
+		graph string
+		prog  string
+		want  string
 	}
 	plants := []plant{
-		{flawDuplicate, "[11] i", "R0", "none", "1.4", "sharing:object-copied-twice"},
-		{flawDuplicate, "[01]  [0]", "R0", "none", "2.0", "sharing:object-copied-twice"},
-		{flawMerge, "[12] i s", "R0", "none", "1.4", "sharing:distinct-objects-merged"},
-		{flawEmptyArray, "[a]", "R0", "none", "1.4", "empty-array-becomes-null"},
-		{flawEmptyArray, "<a>", "C0", "none", "1.4", "empty-array-becomes-null"},
-		{flawEmptyArray, "[]", "R0", "none", "1.4", "empty-array-becomes-null"},
-		{flawEmptyArray, "S0<a>", "R0", "none", "1.4", "empty-array-becomes-null"},
-		{flawEmptyDict, "[d]", "R0", "none", "1.4", "empty-dict-becomes-null"},
-		{flawEmptyDict, "<d>", "R0", "aes-128", "2.0", "empty-dict-becomes-null"},
-		{flawEmptyDict, "<>", "R0", "none", "1.4", "empty-dict-becomes-null"},
-		{flawDropEntry, "<ii>", "R0", "none", "1.4", "dict-entry-lost"},
-		{flawStreamBytes, "S1<>", "R0", "none", "1.4", "stream-bytes-differ:"},
-		{flawStreamBytes, "S3<>", "C0", "rc4-128", "2.0-aes256", "stream-bytes-differ:"},
-		{flawNullInArray, "[ni]", "R0", "none", "1.4", "array-length"},
-		{flawDeadRefKept, "[x]", "R0", "none", "1.4", "dead-reference-not-null"},
-		{flawDeadRefKept, "[f]", "C0", "none", "1.4", "dead-reference-not-null"},
-		{flawIgnoreRedir, "[1] i", "D1 R0", "none", "1.4", "redirect-not-honoured"},
-		{flawIgnoreRedir, "i", "D0 R0", "none", "1.4", "redirect-not-honoured"},
-		{flawNewRefTwice, "i", "R0 R0", "none", "1.4", "same-reference-twice:different-target"},
+		{flawDuplicate, "[11] i", "R0", "sharing:object-copied-twice"},
+		{flawDuplicate, "[01]  [0]", "R0", "sharing:object-copied-twice"},
+		{flawMerge, "[12] i s", "R0", "sharing:distinct-objects-merged"},
+		{flawEmptyArray, "[a]", "R0", "empty-array-becomes-null"},
+		{flawEmptyArray, "<a>", "C0", "empty-array-becomes-null"},
+		{flawEmptyArray, "[]", "R0", "empty-array-becomes-null"},
+		{flawEmptyArray, "S0<a>", "R0", "empty-array-becomes-null"},
+		{flawEmptyDict, "[d]", "R0", "empty-dict-becomes-null"},
+		{flawEmptyDict, "<d>", "R0", "empty-dict-becomes-null"},
+		{flawEmptyDict, "<>", "R0", "empty-dict-becomes-null"},
+		{flawDropEntry, "<ii>", "R0", "dict-entry-lost"},
+		{flawStreamBytes, "S1<>", "R0", "stream-bytes-differ:"},
+		{flawStreamBytes, "S3<>", "C0", "stream-bytes-differ:"},
+		{flawNullInArray, "[ni]", "R0", "array-length"},
+		{flawDeadRefKept, "[x]", "R0", "dead-reference-not-null"},
+		{flawDeadRefKept, "[f]", "C0", "dead-reference-not-null"},
+		{flawDeadRefKept, "[~0]", "C0", "dead-reference-not-null"},
+		{flawDeadRefKept, "i", "G0", "dead-reference-not-null"},
+		{flawIgnoreRedir, "[1] i", "D1 R0", "redirect-not-honoured"},
+		{flawIgnoreRedir, "i", "D0 R0", "redirect-not-honoured"},
+		{flawNewRefTwice, "i", "R0 R0", "same-reference-twice:different-target"},
+		{flawNewRefTwice, "i", "G0 G0", "same-reference-twice:different-target"},
+		// a stale reference must not alias the live object ...
+		{flawStaleAliased, "[1~1] i", "R0", "dead-reference-not-null"},
+		{flawStaleAliased, "[~11] <>", "C0", "dead-reference-not-null"},
+		{flawStaleAliased, "[~0]", "R0", "dead-reference-not-null"},
+		{flawStaleAliased, "<~1> S0<>", "R1 R0", "dead-reference-not-null"},
+		{flawStaleAliased, "i", "R0 G0", "dead-reference-not-null"},
+		{flawStaleAliased, "i", "D0 G0", "dead-reference-not-null"},
+		{flawStaleAliased, "^~1 i", "C0", "dead-reference-not-null"},
+		// ... and must not destroy it
+		{flawStaleKillsLive, "[~11] i", "R0", "copied-object-is-null"},
+		{flawStaleKillsLive, "<~11> [i]", "C0", "copied-object-is-null"},
+		{flawStaleKillsLive, "[~1] S0<>", "R0 R1", "copied-object-is-null"},
+		{flawStaleKillsLive, "i", "G0 R0", "copied-object-is-null"},
+		// nested direct containers
+		{flawNestedString, "S0<[s]>", "R0", "value-differs:string"},
+		{flawNestedString, "S1<<s>>", "C0", "value-differs:string"},
+		{flawNestedString, "[<s>]", "R0", "value-differs:string"},
+		{flawNestedRef, "<[1]> i", "R0", "copied-object-is-null"},
+		{flawNestedRef, "S0<<1>> i", "R0", "copied-object-is-null"},
 	}
 	for _, p := range plants {
 		g, err := ParseGraph(p.graph)
@@ -124,15 +180,12 @@ func selfTest(rn *runner) error {
 		if err != nil {
 			return err
 		}
-		s, err := buildSource(g, p.src)
+		s := describeSource(g, "none")
+		ex, err := modelExecute(s, prog, "1.4", p.fl, true)
 		if err != nil {
 			return err
 		}
-		ex, err := modelExecute(s, prog, p.tgt, p.fl)
-		if err != nil {
-			return err
-		}
-		fs, _ := judge(s, prog, p.tgt, ex)
+		fs, _ := judge(s, prog, "1.4", ex)
 		hit := false
 		var got []string
 		for _, f := range fs.list {
@@ -146,5 +199,16 @@ func selfTest(rn *runner) error {
 		}
 	}
 	rn.r.Dim("selftest_planted_flaws_found", len(plants))
+	return nil
+}
+
+// selfTestFiles is the part that goes through the library's Writer and
+// Reader.
+func selfTestFiles(rn *runner) error {
+	accepted, err := correctCopies(rn, false)
+	if err != nil {
+		return err
+	}
+	rn.r.Dim("selftest_correct_copies_accepted_through_files", accepted)
 	return nil
 }
